@@ -217,7 +217,9 @@ func diff(id uint64, got upd, want sv) string {
 	switch {
 	case got.ShardID != id:
 		return "shard-id"
-	case got.LeaderID != want.Leader || got.Term != want.Term:
+	case got.LeaderID != want.Leader || (want.Leader != 0 && got.Term != want.Term):
+		// while no update has named a leader the statement says nothing about the term a view
+		// may remember; only "no leader" is required then
 		return "leader"
 	case got.ConfigChangeIndex != want.CCI:
 		return "config-index"
@@ -286,32 +288,31 @@ func canonView(l []upd) string {
 	return strings.Join(s, " ")
 }
 
-// nontrivial: >= 2 distinct terms, a no-leader update carrying the highest term, a duplicate.
+// nontrivial: some shard has >= 2 distinct terms, an update naming a leader, and a no-leader
+// update carrying that shard's highest term; and the multiset contains a duplicate.
 func nontrivial(us []upd) bool {
 	maxTerm := map[uint64]uint64{}
 	terms := map[[2]uint64]bool{}
+	named := map[uint64]bool{}
 	for _, u := range us {
 		if u.Term > maxTerm[u.ShardID] {
 			maxTerm[u.ShardID] = u.Term
 		}
 		terms[[2]uint64{u.ShardID, u.Term}] = true
+		if u.LeaderID != 0 {
+			named[u.ShardID] = true
+		}
 	}
 	perShardTerms := map[uint64]int{}
 	for k := range terms {
 		perShardTerms[k[0]]++
 	}
-	two := false
-	for _, n := range perShardTerms {
-		if n >= 2 {
-			two = true
-		}
-	}
-	noLeadTop := false
+	threat := false
 	seen := map[string]bool{}
 	dup := false
 	for _, u := range us {
-		if u.LeaderID == 0 && u.Term == maxTerm[u.ShardID] && perShardTerms[u.ShardID] >= 2 {
-			noLeadTop = true
+		if u.LeaderID == 0 && u.Term == maxTerm[u.ShardID] && perShardTerms[u.ShardID] >= 2 && named[u.ShardID] {
+			threat = true
 		}
 		k := fmtUpd(u)
 		if seen[k] {
@@ -319,5 +320,5 @@ func nontrivial(us []upd) bool {
 		}
 		seen[k] = true
 	}
-	return two && noLeadTop && dup
+	return threat && dup
 }
